@@ -24,7 +24,9 @@ def tri : P String := do
       wRes Wire.wr (Tri.det t), wRes wArr (Tri.solve t r), wRes wArr (Tri.mulVec t v),
       wTri (Tri.neg t), wRes wTri (Tri.add t other), wRes wTri (Tri.sub' t other),
       wTri (Tri.smul t s), wRes wTri (Tri.sdiv t s), wTri (Tri.addS t s), wTri (Tri.subS t s),
-      wTri (Tri.smul t s), wRes wTri (Tri.sdiv t s)]
+      wTri (Tri.smul t s), wRes wTri (Tri.sdiv t s),
+      wRes wTri (Tri.set t i j s), wRes wTri (Tri.withElements s (s + 1) (s - 1) i), wRes wTri (Tri.new (K := K) j),
+      wRes wTri (Tri.new (K := K) i), wTri (Tri.transpose t), wRes wTri (Tri.withVecs sub main sup)]
     pure (" ".intercalate parts)
 
 def exec (op : String) : P (Option String) := do
